@@ -21,6 +21,10 @@ PROPS = {
         units=['nnum', 'builtins'],
         not_covered='vectorisation wrappers, float/complex arithmetic values, int()/rational()/float() conversion builtins',
     ),
+    'C03': dict(
+        units=['chain'],
+        not_covered='that evaluate() feeds new/give/finish in order and evaluates each operand once; the one-operator fast path and ChainSection; try_chain tables of the builtins',
+    ),
     'C06': dict(
         units=['nint', 'nnum', 'builtins'],
         not_covered='lazy_is_prime / lazy_factorize / even / odd; literal parsing',
@@ -60,6 +64,12 @@ PROPS = {
 TECHNIQUE = 'contract-based deductive verification (Verus/Z3) of mechanically extracted real functions'
 
 TEXT = {
+    'C03': ('Verus proves that ChainEvaluator (new / give* / finish) returns, whenever it returns Ok, exactly the value of the '
+            'precedence-climbing parse of the chain written independently of the stack code: tighter operators first, ties by the '
+            'left operator\'s associativity, chainable operators merged into one n-ary application keeping the first precedence '
+            'exactly when the left one would otherwise apply first; for every chain length and every precedence assignment. '
+            'Operator application and chainability are uninterpreted functions of the operator values. The tightness kernel '
+            'Precedence::tighter_than_when_before is assumed in the Verus leg and proved by the Kani leg over all f64 x f64 x Assoc^2.'),
     'C06': ('Verus proves, for every NInt/NNum operand pair in either representation (machine word or big integer), that the '
             '90 functions of nint.rs, the integer arms of the numeric tower in nnum.rs and the arithmetic builtin closures of '
             'lib.rs return the mathematically exact result stated on the abstract value (view) only, so the result cannot '
